@@ -10,6 +10,7 @@ Model side: Model/Exceptions.v over the regenerated Gen/ExcTable.v, reference Sp
 through bin/c07_driver."""
 import json, os, sys, time
 import core
+import priv
 
 sys.path.insert(0, os.path.dirname(os.path.abspath(__file__)))
 import gen_c07
@@ -119,7 +120,9 @@ class C07(core.Property):
                     "harness/c07.py (generators, canonicalisation, in-process endpoints)",
                     "modelled not verified: Python set iteration as a list in arbitrary order; "
                     "traceback.format_exception_only as 'contains the exception text'; cattrs structuring outcome "
-                    "as POk/PBadValidation/PBadOther"]
+                    "as POk/PBadValidation/PBadOther",
+                    priv.trusted(["protocol.request_futures", "protocol.result_types", "server.thread_pool", "exceptions.registered"])]
+    private = ["protocol.request_futures", "protocol.result_types", "server.thread_pool", "exceptions.registered"]
     assumptions = ["error codes are integers (lsprotocol ResponseError.code: int)",
                    "handlers raise fresh exception instances; constructors are called with keyword arguments"]
 
@@ -594,8 +597,14 @@ def data_index(d):
 
 
 def inflight(proto):
-    """The one accessor for the in-flight request table (a rename is a one-line fix here)."""
-    return proto._request_futures
+    """The in-flight request table (located by harness/priv.py)."""
+    return priv.request_futures(proto)
+
+
+def forget(proto, rid):
+    """Harness clean-up after a reply that never resolved its request: drop the bookkeeping of `rid`."""
+    priv.request_futures(proto).pop(rid, None)
+    priv.result_types(proto).pop(rid, None)
 
 
 class Custom(Exception):
@@ -674,7 +683,7 @@ class Env:
         from concurrent.futures import ThreadPoolExecutor
         self.srv = LanguageServer("c07-server", "1")
         self.req = LanguageServer("c07-requester", "1")
-        self.srv._thread_pool = ThreadPoolExecutor(max_workers=1)   # one worker: a queued job can be cancelled
+        priv.set_thread_pool(self.srv, ThreadPoolExecutor(max_workers=1))   # one worker: a queued job can be cancelled
         self.sw, self.rw = Recorder(), Recorder()
         self.srv.protocol.set_writer(self.sw)
         self.req.protocol.set_writer(self.rw)
@@ -735,8 +744,8 @@ class Env:
     def close(self):
         try:
             for s in (self.srv, self.req):
-                if s._thread_pool:
-                    s._thread_pool.shutdown(wait=True)
+                if priv.thread_pool_slot(s):
+                    priv.thread_pool_slot(s).shutdown(wait=True)
             self.loop.run_until_complete(self.asyncio.sleep(0))
         finally:
             self.asyncio.set_event_loop(None)
@@ -789,7 +798,7 @@ class Env:
         X = self.X
         base, rows = gen_c07.reflect()
         names = [base["name"]] + [r["name"] for r in rows]
-        reg = list(X._EXCEPTIONS)
+        reg = list(priv.registered_exceptions())
         probe = set(range(-33000, -30999)) | {0, 1, -1, 2 ** 31, -2 ** 31, 2 ** 63, -2 ** 63}
         unique = all(sum(1 for k in reg if k.supports_code(c)) <= 1 for c in probe)
         ctor_ok = True
@@ -830,10 +839,10 @@ class Env:
         try:
             self.feed(p, self.error_frame(rid, c["code"], msg, payload, c.get("null", False)))
         except Exception as ex:
-            p._request_futures.pop(rid, None)
+            inflight(p).pop(rid, None)
             return ["raise", type(ex).__name__] if fut.done() else ["pending", type(ex).__name__][:1]
         if not fut.done():
-            p._request_futures.pop(rid, None)
+            inflight(p).pop(rid, None)
             return ["pending"]
         return self.obs_exc(fut.exception(timeout=0))
 
@@ -968,7 +977,7 @@ class Env:
             self.plan.pop(key, None)
         rs = replies()
         if len(rs) != 1:
-            rp._request_futures.pop(rid, None); rp._result_types.pop(rid, None)
+            forget(rp, rid)
             return [["none"] if not rs else ["many", len(rs)], ["pending"]]
         o, raw = rs[0]
         if "error" in o and o["error"] is not None:
@@ -987,7 +996,7 @@ class Env:
         except Exception:
             pass
         if not fut.done():
-            rp._request_futures.pop(rid, None); rp._result_types.pop(rid, None)
+            forget(rp, rid)
             return [ro, ["pending"]]
         ex = fut.exception(timeout=0)
         return [ro, ["result"] if ex is None else self.obs_exc(ex)]
